@@ -75,7 +75,10 @@ def run(ctx):
                  "between the cells, and every width that pads a cell is measured format-aware", reference=2)
     gcw = table.methods.get("_get_cell_wrapper")
     ctx.require(gcw is not None, "Table._get_cell_wrapper missing")
-    measured = sorted({n.attr for n in walk_no_nested(gcw.node) if isinstance(n, ast.Attribute) and n.attr.endswith("_char")})
+    # the budget may be computed in private helpers of the table that _get_cell_wrapper calls on self
+    budget_fns = [gcw] + [t for cs in cg.sites_in(gcw) for t in cs.targets if t.cls is table and t.name.startswith("_") and t is not gcw
+                          and isinstance(cs.node.func, ast.Attribute) and isinstance(cs.node.func.value, ast.Name) and cs.node.func.value.id == "self"]
+    measured = sorted({n.attr for f_ in budget_fns for n in walk_no_nested(f_.node) if isinstance(n, ast.Attribute) and n.attr.endswith("_char")})
     drawn = sorted({n.attr for n in walk_no_nested(draw_row.node) if isinstance(n, ast.Attribute) and n.attr.endswith("_char") and n.attr != "padding_char"})
     if measured == drawn and measured:
         r.ok("budgeted %s == drawn %s" % (measured, drawn))
